@@ -155,6 +155,17 @@ CHECKS = {
             'lowest-key order, consecutive residue numbers, stashed numbers, constituents and weights, inter-placement edges, re-indexed '
             'interactions and the two warnings.',
             'Modification mappings are not in the menu; residues have 2-3 atoms.', '§4 C01'),
+    'C05': ('B', 'bounded exhaustive enumeration of a link feature grammar (every link alone and every ordered pair) x molecules through the real parser and DoLinks, brute-force placement reference model; match_order compared cell by cell with the documented matrix',
+            'model_checking',
+            'Links are generated as structured specifications (all order prefix kinds on 2-, 3- and 4-atom links, equality / choice / not() '
+            'conditions, required and forbidden edges, one to three non-edges, patterns, molecule meta, plain / dist() / angle() / versioned '
+            'payloads, removals, attribute replacement, node deletion), rendered to .ff text for the real parser and DoLinks, and interpreted '
+            'independently by a brute-force model: all injective assignments satisfying predicates, induced edges, the documented order matrix, '
+            'non-edges, patterns and molmeta; links applied in order with add-or-replace on (type, atoms, version). Every link alone and every '
+            'ordered pair of links on molecules of 3-4 residues with four numbering schemes and four connectivities; the complete interaction '
+            'table, attributes and removed atoms must be equal. match_order is checked on all 15x15 order pairs x 16 residue-number pairs.',
+            'Replace of an attribute the same link matches on, non-edges on non-zero-order anchors and removals of a link\'s own additions are '
+            'outside the grammar; features alone and in pairs, not triples.', '§4 C05'),
     'C07': ('A+D', 'explicit-state BFS over deferred-writer histories with a dict file-system model; exhaustive crash-point/torn-write enumeration of every finalisation; audit-hook monitor over all library writers; full product of a CLI run alphabet through the script\'s own entry() bound to real sub-processes',
             'model_checking',
             'Four layers. (1) every enabled operation (open w/a/r+/wb incl. re-opens, files appearing from outside, write, close) in every '
